@@ -566,6 +566,10 @@ def lower_bound_clause(R, g, v, d, o, src, nd, rep):
         # 2.5% far from the source; near it (and in heterogeneous media) the error is first order: half the time to
         # cross a cell at the smallest slowness (C02's bounds are 0.75-1.5 cells at the largest slowness)
         tol = np.maximum(0.025 * lower, 0.5 * max(d) * smin)
+    elif nd == 2:
+        # no number is documented for 2D cells elongated beyond 2:1; measured: the first plane-wave update outside the
+        # 5-cell box loses up to 1.008 cells (aspect 50, any grid size, not growing with distance) -> one cell + 5 %
+        tol = 1.05 * max(d) * smin
     else:
         tol = max(d) * smin * (1 + 1e-9)
     if (g < lower - tol).any():
@@ -662,7 +666,9 @@ def oracle_C05(rs, n, ctx):
                 R.violate(f"C05:interp-raises:{type(ex).__name__}", f"point evaluation raised {type(ex).__name__}: {ex}", dict(rep, points_hex=hexl(pts)))
                 continue
             ok = ~np.isnan(ta) & ~np.isnan(tb)
-            if ok.any() and np.abs(ta * c - tb)[ok].max() > 1e-9 * max(np.abs(tb[ok]).max(), 1e-300) + 1e-12 * scale:
+            # values interpolated from grids that differ (finding F10, reported above) inherit that difference
+            gdiff = float(np.abs(ga - gb).max())
+            if ok.any() and np.abs(ta * c - tb)[ok].max() > 1e-9 * max(np.abs(tb[ok]).max(), 1e-300) + 1e-12 * scale + 4 * gdiff:
                 R.violate("C05:length-interp", f"interpolated times do not scale with length ({np.abs(ta * c - tb)[ok].max():.3e})", rep)
     return R
 
